@@ -11,7 +11,7 @@ C["C02"] = ("UsedUnitContainerToCdr / MultiUnitUsageToCdr / TriggersToCdr / Time
 C["C03"] = ("dumpCdrFile hands Encoding a structure whose FileLength (mod 2^32), HeaderLength, NumberOfCdrsInFile and every CdrLength describe exactly the bytes written, for any number of records (loop invariants plus an induction over the recursive size specification, 'preserved' clause); a record that fails to marshal or exceeds 65535 octets is refused; (CDRFile).Encoding is proved to write header length + sum of record sizes octets and the header layout, for any number of records.",
                "Assumed: files shorter than 4 GiB (stated at the call of Encoding), BerMarshalWithParams returns a complete BER value (C04 covers its primitives only), os.WriteFile succeeds. The size estimate that splits records in ChargingDataUpdate is not verified: an oversize record is refused (400) rather than written truncated.")
 C["C04"] = ("Primitive encoders (INTEGER/ENUMERATED minimal two's complement, BOOLEAN, OCTET/character strings, BIT STRING with unused-bit count 0..7) and appendTagAndLen (class/constructed bits, minimal base-128 tag number, minimal definite length) are proved equal to specification functions written from X.690, for all values; no panics in them. Over the `encoder` interface (assumed method contracts that every implementation is verified against): a constructed value's length is the sum of its children's lengths (structEncoder.Len, any number of children), and berTypeEncoder writes tag-and-length then the value right behind it, inside Len() octets.",
-               "Not covered (not proved, not claimed): structEncoder.Encode (undecided), the reflection-driven structure walk (makeField/ParseField, SEQUENCE/SET/CHOICE composition, OPTIONAL, IMPLICIT/EXPLICIT by parameter) - govc has no model of package reflect.")
+               "makeField's own code (package reflect treated as an opaque dependency) never panics and returns a non-nil encoder whenever it returns no error. Not covered (not proved, not claimed): structEncoder.Encode (undecided); what makeField computes (SEQUENCE/SET/CHOICE composition, OPTIONAL, IMPLICIT/EXPLICIT by parameter, the tag/length it builds) and reflect's own panics - govc has no model of package reflect beyond 'arbitrary result'.")
 C["C05"] = ("decode(encode(v)) == v as lemmas over the real primitive encoder/decoder pairs: INTEGER/ENUMERATED of any sign and width (int64), BOOLEAN, BIT STRING of any length; the decoders' contracts state exact results for every input.",
                "Not covered: composite types (reflection), see C04.")
 C["C07"] = ("The Diameter credit-control handler of pkg/abmf (handleCCR$1) is proved against its contract for every request: grant = min(requested, balance), stored balance lowered by the grant, final-unit indication iff requested > balance, refund/termination arithmetic exact, answer echoes Session-Id/type/number, unknown account changes no balance. The account table is a ghost map updated by the assumed mongoapi contracts.",
@@ -30,8 +30,8 @@ C["C14"] = ("Header round trip proved for every well-formed header (all fields, 
                "Assumed: bytes.Buffer/binary.Write/os.WriteFile/os.ReadFile as a ghost byte store. Record dimension bounded; second record's payload bytes not compared (undecided by the installed solvers).")
 C["C15"] = ("(CdrFileHeader).Encoding, (CdrHeader).Encoding return exactly the bytes of specification functions written from TS 32.297 6.1 (offsets, big-endian, bit packing, extension octets iff identifier 7, high before low); (CDRFile).Encoding writes that header first and header + sum(record header + payload) octets in total, for any number of records.",
                "The byte positions of the records inside the file are covered by the bounded C14 lemmas only.")
-C["C16"] = ("parseTagAndLength, parseInt64, parseSignedInt64, parseBool, parseBitString: every index and slice expression in bounds and every arithmetic step free of wrap-around for every input (strict mode), loops with decreasing measures (termination).",
-               "ParseField (reflection) is not under contract: the claim is for the primitive parsers that touch the bytes.")
+C["C16"] = ("parseTagAndLength, parseInt64, parseSignedInt64, parseBool, parseBitString, ParseField: every index and slice expression in bounds and every arithmetic step free of wrap-around for every input (strict mode), loops with decreasing measures (termination).",
+               "ParseField is under a safety contract with package reflect as an opaque dependency: every index, slice and offset computation of its own code stays inside the input for every byte string (recursion through its contract); reflect's own panics (e.g. Set with a mismatching type) are not modelled.")
 C["C18"] = ("SendAccountDebitRequest and SendServiceUsageRequest leave the ghost count of live Diameter connections unchanged on every return path (dial, metadata, marshal, write, answer, time-out).",
                "Assumed: DialNetworkTLS opens one connection (with its tasks) or fails, Conn.Close releases it. Watchdog goroutines of go-diameter and the per-subscriber state machines are not modelled.")
 C["C20"] = ("A predicate derived mechanically from the valid:\"...\" struct tags in the current source (required pointers non-nil recursively) is assumed after a successful Config.Validate; under it InitChfContext, both Diameter clients and the SBI server start (startServer, with the certificate-path getters) are proved free of nil dereferences; Configuration.validate is proved to reject an unknown service name and the https scheme without a tls section (the one hand-coded presence rule, part of the predicate).",
